@@ -11,6 +11,7 @@ Notation "0" := (c0 F). Notation "1" := (c1 F).
 Infix "+" := (cadd F). Infix "*" := (cmul F). Infix "-" := (csub F). Infix "/" := (kdiv F).
 Notation heap := (heap F). Notation alloc := (alloc F). Notation isub := (isub F). Notation rd := (rd F).
 Notation proj_eq_with_var := (proj_eq_with_var F). Notation convert_var_to_hss := (convert_var_to_hss F).
+Notation copy_all := (copy_all F).
 
 Lemma alloc_old (h : heap) n f b : (b < h_next F h)%nat -> h_buf F (fst (alloc h n f)) b = h_buf F h b.
 Proof. intros H. cbn. destruct (Nat.eqb_spec b (h_next F h)); [lia|reflexivity]. Qed.
@@ -55,8 +56,27 @@ Proof.
     intros a Ha. now apply views_buf in Ha.
 Qed.
 
-(* FRAME: the call writes no buffer that existed before - except, when on_para_eq_constraint = False, the
-   buffer of its own argument; the result is always a newly allocated buffer *)
+(* the body after the HS arrays have been obtained: writes only the buffers of those arrays; the result is
+   a newly allocated buffer *)
+Lemma core_frame (h1 : heap) d2 on_para hss :
+  (forall b, (b < h_next F h1)%nat -> (forall a, In a hss -> a_buf a <> b) ->
+             h_buf F (fst (proj_eq_core F h1 d2 on_para hss)) b = h_buf F h1 b) /\
+  a_buf (snd (proj_eq_core F h1 d2 on_para hss)) = h_next F h1 /\
+  h_next F (fst (proj_eq_core F h1 d2 on_para hss)) = S (h_next F h1).
+Proof.
+  unfold C13_Heap.proj_eq_core. set (c := fun j => _ / _).
+  pose proof (fold_isub_next d2 c hss h1) as Hn.
+  assert (Hfold : forall b, (forall a, In a hss -> a_buf a <> b) ->
+     h_buf F (fold_left (fun hh a => isub hh (view a 0 d2) c) hss h1) b = h_buf F h1 b).
+  { intros b Hne. now apply fold_isub_frame. }
+  set (h2 := fold_left _ hss h1) in *.
+  destruct on_para; cbn [C13_Heap.alloc fst snd a_buf h_next h_buf]; rewrite Hn.
+  all: split; [|split; reflexivity].
+  all: intros b Hb Hne; destruct (Nat.eqb_spec b (h_next F h1)); [lia|now apply Hfold].
+Qed.
+
+(* FRAME (code before the fix): the call writes no buffer that existed before - except, when
+   on_para_eq_constraint = False, the buffer of its own argument; the result is always a newly allocated buffer *)
 Theorem proj_eq_frame (h : heap) d2 on_para var h' res :
   proj_eq_with_var h d2 on_para var = Some (h', res) ->
   (forall b, (b < h_next F h)%nat -> (on_para = false -> b <> a_buf var) -> h_buf F h' b = h_buf F h b) /\
@@ -64,16 +84,10 @@ Theorem proj_eq_frame (h : heap) d2 on_para var h' res :
 Proof.
   unfold C13_Heap.proj_eq_with_var. destruct (convert_var_to_hss h d2 on_para var) as [[h1 hss]|] eqn:E; [|discriminate].
   destruct (convert_spec h d2 on_para var h1 hss E) as [Hold [Hnext Hbuf]].
-  set (c := fun j => _ / _).
-  assert (Hfold : forall b, (b < h_next F h)%nat -> (on_para = false -> b <> a_buf var) ->
-     h_buf F (fold_left (fun hh a => isub hh (view a 0 d2) c) hss h1) b = h_buf F h b).
-  { intros b Hb Hne. rewrite fold_isub_frame; [now apply Hold|].
-    intros a Ha. rewrite (Hbuf a Ha). destruct on_para; [lia|]. intros E'. now apply Hne. }
-  pose proof (fold_isub_next d2 c hss h1) as Hn.
-  set (h2 := fold_left _ hss h1) in *.
-  destruct on_para; intros R; inversion R; subst; clear R; cbn [C13_Heap.alloc fst snd a_buf h_next h_buf].
-  all: split; [|rewrite Hn; split; lia].
-  all: intros b Hb Hne; destruct (Nat.eqb_spec b (h_next F h2)); [rewrite Hn in *; lia|now apply Hfold].
+  destruct (core_frame h1 d2 on_para hss) as [A [B C]].
+  intros R. injection R as R. rewrite R in A, B, C. cbn [fst snd] in A, B, C. split; [|rewrite B, C; split; lia].
+  intros b Hb Hne. rewrite A; [now apply Hold|lia|].
+  intros a Ha. rewrite (Hbuf a Ha). destruct on_para; [lia|]. intros E'. now apply Hne.
 Qed.
 
 (* on_para_eq_constraint = True: no existing buffer is written at all *)
@@ -82,16 +96,43 @@ Corollary proj_eq_para_true_pure (h : heap) d2 var h' res :
   forall b, (b < h_next F h)%nat -> h_buf F h' b = h_buf F h b.
 Proof. intros E b Hb. apply (proj1 (proj_eq_frame h d2 true var h' res E)); [exact Hb|discriminate]. Qed.
 
-(* the proposed fix (copy first): no existing buffer is written, in either mode *)
+(* copy.deepcopy of a list of arrays: nothing existing is written, every copy lives in a new buffer, and
+   holds the values of its original *)
+Lemma copy_all_spec (l : list arr) : forall (h : heap),
+  (forall b, (b < h_next F h)%nat -> h_buf F (fst (copy_all h l)) b = h_buf F h b) /\
+  (h_next F h <= h_next F (fst (copy_all h l)))%nat /\
+  (forall a, In a (snd (copy_all h l)) -> (h_next F h <= a_buf a)%nat) /\
+  length (snd (copy_all h l)) = length l.
+Proof.
+  induction l as [|a l IH]; intros h; cbn [C13_Heap.copy_all fst snd].
+  - split; [now intros|split; [lia|split; [now intros|reflexivity]]].
+  - destruct (IH (fst (alloc h (a_len a) (rd h a)))) as [A [B [C D]]]. rewrite alloc_next in *.
+    split; [|split; [lia|split]].
+    + intros b Hb. rewrite A by lia. now apply alloc_old.
+    + intros x [<-|Hx]; [cbn; lia|]. specialize (C x Hx). lia.
+    + cbn [length]. now rewrite D.
+Qed.
+
+(* REPAIRED code (copy.deepcopy of the HS arrays before the in-place update): no buffer that existed before
+   the call is written, in either mode - in particular not the argument; the result is a new buffer *)
 Theorem proj_eq_fixed_pure (h : heap) d2 on_para var h' res :
   proj_eq_with_var_fixed F h d2 on_para var = Some (h', res) ->
-  forall b, (b < h_next F h)%nat -> h_buf F h' b = h_buf F h b.
+  (forall b, (b < h_next F h)%nat -> h_buf F h' b = h_buf F h b) /\
+  (h_next F h <= a_buf res)%nat /\ (a_buf res < h_next F h')%nat.
 Proof.
-  unfold C13_Heap.proj_eq_with_var_fixed. destruct on_para; [apply proj_eq_para_true_pure|].
-  cbn [C13_Heap.alloc]. intros E b Hb.
-  destruct (proj_eq_frame _ d2 false _ h' res E) as [A _].
-  rewrite A; cbn; [|lia|intros _; lia]. destruct (Nat.eqb_spec b (h_next F h)); [lia|reflexivity].
+  unfold C13_Heap.proj_eq_with_var_fixed.
+  destruct (convert_var_to_hss h d2 on_para var) as [[h1 hss]|] eqn:E; [|discriminate].
+  destruct (convert_spec h d2 on_para var h1 hss E) as [Hold [Hnext _]].
+  destruct (copy_all_spec hss h1) as [A [B [C _]]].
+  destruct (core_frame (fst (copy_all h1 hss)) d2 on_para (snd (copy_all h1 hss))) as [X [Y Z]].
+  intros R. injection R as R. rewrite R in X, Y, Z. cbn [fst snd] in X, Y, Z. split; [|rewrite Y, Z; split; lia].
+  intros b Hb. rewrite X; [rewrite A by lia; now apply Hold|lia|].
+  intros a Ha E'. specialize (C a Ha). lia.
 Qed.
+(* ... hence every array that was live before the call reads the same afterwards *)
+Corollary proj_eq_fixed_reads_unchanged (h : heap) d2 on_para var h' res (x : arr) i :
+  proj_eq_with_var_fixed F h d2 on_para var = Some (h', res) -> live F h x -> rd h' x i = rd h x i.
+Proof. intros E Hl. unfold C13_Heap.rd. now rewrite (proj1 (proj_eq_fixed_pure h d2 on_para var h' res E) _ Hl). Qed.
 
 (* ---- on_para_eq_constraint = False: WHAT is written into the caller's array ---- *)
 Section Writes.
@@ -150,7 +191,7 @@ Theorem proj_eq_para_false_overwrites_arg (h : heap) d2 n var h' res :
   forall k j, (k < n)%nat -> (j < hs)%nat ->
     rd h' var (k * hs + j) = if Nat.ltb j d2 then rd h var (k * hs + j) - c j else rd h var (k * hs + j).
 Proof.
-  intros Hd Hlen Hlive. unfold C13_Heap.proj_eq_with_var, C13_Heap.convert_var_to_hss.
+  intros Hd Hlen Hlive. unfold C13_Heap.proj_eq_with_var, C13_Heap.proj_eq_core, C13_Heap.convert_var_to_hss.
   assert (Hpos : (d2 * d2 <> 0)%nat) by nia.
   rewrite Hlen, (Nat.div_mul n (d2 * d2) Hpos), Nat.eqb_refl. rewrite map_length, seq_length.
   intros E. inversion E; subst; clear E. intros k j Hk Hj.
